@@ -138,10 +138,9 @@ Theorem twin_gas_pressures_equal :
 Proof. exact C07.ProofsTwin.twin_gas_pressures_equal. Qed.
 Print Assumptions twin_gas_pressures_equal.
 
-(* norm factors and gas velocities: the numba wrapper (pressures -> compressibility at the direction-corrected inlet temperature tf -> get_gas_vel_numba) equals the numpy function when the branch is not direction-switched *)
-Theorem twin_gas_normfactors_partial :
+(* norm factors and gas velocities: the numba wrapper (pressures -> compressibility at the direction-corrected inlet temperature tf -> get_gas_vel_numba) equals the numpy function, direction-switched branches included (since /repo bfae2a5 the wrapper passes tf to get_gas_vel_numba) *)
+Theorem twin_gas_normfactors_equal :
   forall (bp_FROM_NODE_T_SWITCHED bp_TOUTINIT : R) (fl_compressibility : R -> R -> R) (np_from_PAMB np_from_TINIT np_to_PAMB np_to_TINIT p_from p_to v_mps : R),
-  bp_FROM_NODE_T_SWITCHED = 0 ->
   (np_from_PAMB + p_from) + (np_to_PAMB + p_to) <> 0 ->
   let tf := (if negb (Reqb bp_FROM_NODE_T_SWITCHED 0) then np_to_TINIT else np_from_TINIT) in
   gasres_np_normfactor_from bp_FROM_NODE_T_SWITCHED bp_TOUTINIT fl_compressibility np_from_PAMB np_from_TINIT np_to_PAMB np_to_TINIT p_from p_to v_mps =
@@ -149,50 +148,37 @@ Theorem twin_gas_normfactors_partial :
       (fl_compressibility (gaspress_nb_p_abs_from np_from_PAMB np_to_PAMB p_from p_to) tf)
       (fl_compressibility (gaspress_nb_p_abs_mean np_from_PAMB np_to_PAMB p_from p_to) ((tf + bp_TOUTINIT) / 2))
       (fl_compressibility (gaspress_nb_p_abs_to np_from_PAMB np_to_PAMB p_from p_to) bp_TOUTINIT)
-      np_from_TINIT (gaspress_nb_p_abs_from np_from_PAMB np_to_PAMB p_from p_to) (gaspress_nb_p_abs_mean np_from_PAMB np_to_PAMB p_from p_to) (gaspress_nb_p_abs_to np_from_PAMB np_to_PAMB p_from p_to) v_mps /\
+      (gaspress_nb_p_abs_from np_from_PAMB np_to_PAMB p_from p_to) (gaspress_nb_p_abs_mean np_from_PAMB np_to_PAMB p_from p_to) (gaspress_nb_p_abs_to np_from_PAMB np_to_PAMB p_from p_to) tf v_mps /\
   gasres_np_normfactor_to bp_FROM_NODE_T_SWITCHED bp_TOUTINIT fl_compressibility np_from_PAMB np_from_TINIT np_to_PAMB np_to_TINIT p_from p_to v_mps =
     gasvel_nb_normfactor_to bp_TOUTINIT
       (fl_compressibility (gaspress_nb_p_abs_from np_from_PAMB np_to_PAMB p_from p_to) tf)
       (fl_compressibility (gaspress_nb_p_abs_mean np_from_PAMB np_to_PAMB p_from p_to) ((tf + bp_TOUTINIT) / 2))
       (fl_compressibility (gaspress_nb_p_abs_to np_from_PAMB np_to_PAMB p_from p_to) bp_TOUTINIT)
-      np_from_TINIT (gaspress_nb_p_abs_from np_from_PAMB np_to_PAMB p_from p_to) (gaspress_nb_p_abs_mean np_from_PAMB np_to_PAMB p_from p_to) (gaspress_nb_p_abs_to np_from_PAMB np_to_PAMB p_from p_to) v_mps /\
+      (gaspress_nb_p_abs_from np_from_PAMB np_to_PAMB p_from p_to) (gaspress_nb_p_abs_mean np_from_PAMB np_to_PAMB p_from p_to) (gaspress_nb_p_abs_to np_from_PAMB np_to_PAMB p_from p_to) tf v_mps /\
   gasres_np_normfactor_mean bp_FROM_NODE_T_SWITCHED bp_TOUTINIT fl_compressibility np_from_PAMB np_from_TINIT np_to_PAMB np_to_TINIT p_from p_to v_mps =
     gasvel_nb_normfactor_mean bp_TOUTINIT
       (fl_compressibility (gaspress_nb_p_abs_from np_from_PAMB np_to_PAMB p_from p_to) tf)
       (fl_compressibility (gaspress_nb_p_abs_mean np_from_PAMB np_to_PAMB p_from p_to) ((tf + bp_TOUTINIT) / 2))
       (fl_compressibility (gaspress_nb_p_abs_to np_from_PAMB np_to_PAMB p_from p_to) bp_TOUTINIT)
-      np_from_TINIT (gaspress_nb_p_abs_from np_from_PAMB np_to_PAMB p_from p_to) (gaspress_nb_p_abs_mean np_from_PAMB np_to_PAMB p_from p_to) (gaspress_nb_p_abs_to np_from_PAMB np_to_PAMB p_from p_to) v_mps /\
+      (gaspress_nb_p_abs_from np_from_PAMB np_to_PAMB p_from p_to) (gaspress_nb_p_abs_mean np_from_PAMB np_to_PAMB p_from p_to) (gaspress_nb_p_abs_to np_from_PAMB np_to_PAMB p_from p_to) tf v_mps /\
   gasres_np_v_gas_from bp_FROM_NODE_T_SWITCHED bp_TOUTINIT fl_compressibility np_from_PAMB np_from_TINIT np_to_PAMB np_to_TINIT p_from p_to v_mps =
     gasvel_nb_v_gas_from bp_TOUTINIT
       (fl_compressibility (gaspress_nb_p_abs_from np_from_PAMB np_to_PAMB p_from p_to) tf)
       (fl_compressibility (gaspress_nb_p_abs_mean np_from_PAMB np_to_PAMB p_from p_to) ((tf + bp_TOUTINIT) / 2))
       (fl_compressibility (gaspress_nb_p_abs_to np_from_PAMB np_to_PAMB p_from p_to) bp_TOUTINIT)
-      np_from_TINIT (gaspress_nb_p_abs_from np_from_PAMB np_to_PAMB p_from p_to) (gaspress_nb_p_abs_mean np_from_PAMB np_to_PAMB p_from p_to) (gaspress_nb_p_abs_to np_from_PAMB np_to_PAMB p_from p_to) v_mps /\
+      (gaspress_nb_p_abs_from np_from_PAMB np_to_PAMB p_from p_to) (gaspress_nb_p_abs_mean np_from_PAMB np_to_PAMB p_from p_to) (gaspress_nb_p_abs_to np_from_PAMB np_to_PAMB p_from p_to) tf v_mps /\
   gasres_np_v_gas_to bp_FROM_NODE_T_SWITCHED bp_TOUTINIT fl_compressibility np_from_PAMB np_from_TINIT np_to_PAMB np_to_TINIT p_from p_to v_mps =
     gasvel_nb_v_gas_to bp_TOUTINIT
       (fl_compressibility (gaspress_nb_p_abs_from np_from_PAMB np_to_PAMB p_from p_to) tf)
       (fl_compressibility (gaspress_nb_p_abs_mean np_from_PAMB np_to_PAMB p_from p_to) ((tf + bp_TOUTINIT) / 2))
       (fl_compressibility (gaspress_nb_p_abs_to np_from_PAMB np_to_PAMB p_from p_to) bp_TOUTINIT)
-      np_from_TINIT (gaspress_nb_p_abs_from np_from_PAMB np_to_PAMB p_from p_to) (gaspress_nb_p_abs_mean np_from_PAMB np_to_PAMB p_from p_to) (gaspress_nb_p_abs_to np_from_PAMB np_to_PAMB p_from p_to) v_mps /\
+      (gaspress_nb_p_abs_from np_from_PAMB np_to_PAMB p_from p_to) (gaspress_nb_p_abs_mean np_from_PAMB np_to_PAMB p_from p_to) (gaspress_nb_p_abs_to np_from_PAMB np_to_PAMB p_from p_to) tf v_mps /\
   gasres_np_v_gas_mean bp_FROM_NODE_T_SWITCHED bp_TOUTINIT fl_compressibility np_from_PAMB np_from_TINIT np_to_PAMB np_to_TINIT p_from p_to v_mps =
     gasvel_nb_v_gas_mean bp_TOUTINIT
       (fl_compressibility (gaspress_nb_p_abs_from np_from_PAMB np_to_PAMB p_from p_to) tf)
       (fl_compressibility (gaspress_nb_p_abs_mean np_from_PAMB np_to_PAMB p_from p_to) ((tf + bp_TOUTINIT) / 2))
       (fl_compressibility (gaspress_nb_p_abs_to np_from_PAMB np_to_PAMB p_from p_to) bp_TOUTINIT)
-      np_from_TINIT (gaspress_nb_p_abs_from np_from_PAMB np_to_PAMB p_from p_to) (gaspress_nb_p_abs_mean np_from_PAMB np_to_PAMB p_from p_to) (gaspress_nb_p_abs_to np_from_PAMB np_to_PAMB p_from p_to) v_mps.
-Proof. exact C07.ProofsTwin.twin_gas_normfactors_partial. Qed.
-Print Assumptions twin_gas_normfactors_partial.
-
-(* for a direction-switched branch (reverse flow in a thermal run) normfactor_from differs: numpy scales with the switched inlet temperature, get_gas_vel_numba with the unswitched from-node temperature (witness: T_from-node = 1, T_to-node = 2, K = 1, p = 1) *)
-Theorem twin_gas_normfactor_from_refuted :
-  exists (bp_FROM_NODE_T_SWITCHED bp_TOUTINIT : R) (fl_compressibility : R -> R -> R) (np_from_PAMB np_from_TINIT np_to_PAMB np_to_TINIT p_from p_to v_mps : R),
-  let tf := (if negb (Reqb bp_FROM_NODE_T_SWITCHED 0) then np_to_TINIT else np_from_TINIT) in
-  gasres_np_normfactor_from bp_FROM_NODE_T_SWITCHED bp_TOUTINIT fl_compressibility np_from_PAMB np_from_TINIT np_to_PAMB np_to_TINIT p_from p_to v_mps <>
-    gasvel_nb_normfactor_from bp_TOUTINIT
-      (fl_compressibility (gaspress_nb_p_abs_from np_from_PAMB np_to_PAMB p_from p_to) tf)
-      (fl_compressibility (gaspress_nb_p_abs_mean np_from_PAMB np_to_PAMB p_from p_to) ((tf + bp_TOUTINIT) / 2))
-      (fl_compressibility (gaspress_nb_p_abs_to np_from_PAMB np_to_PAMB p_from p_to) bp_TOUTINIT)
-      np_from_TINIT (gaspress_nb_p_abs_from np_from_PAMB np_to_PAMB p_from p_to) (gaspress_nb_p_abs_mean np_from_PAMB np_to_PAMB p_from p_to) (gaspress_nb_p_abs_to np_from_PAMB np_to_PAMB p_from p_to) v_mps.
-Proof. exact C07.ProofsTwin.twin_gas_normfactor_from_refuted. Qed.
-Print Assumptions twin_gas_normfactor_from_refuted.
+      (gaspress_nb_p_abs_from np_from_PAMB np_to_PAMB p_from p_to) (gaspress_nb_p_abs_mean np_from_PAMB np_to_PAMB p_from p_to) (gaspress_nb_p_abs_to np_from_PAMB np_to_PAMB p_from p_to) tf v_mps.
+Proof. exact C07.ProofsTwin.twin_gas_normfactors_equal. Qed.
+Print Assumptions twin_gas_normfactors_equal.
 
